@@ -150,10 +150,17 @@ def check_case(case, workers=None, info=None):
     if s1 != serialise(r2):
         bad('not-repeatable', f'{tag}: second call returned {serialise(r2)}, first {s1}')
     # a function of its arguments only: the session-wide language setting is not one of them
-    from depccg.lang import get_global_language, set_global_language_to
+    try:
+        from depccg.lang import get_global_language, set_global_language_to
+    except ImportError:         # (no such switch under these names: nothing to vary)
+        def get_global_language():
+            return None
+
+        def set_global_language_to(lang):
+            return None
     cur = get_global_language()
     try:
-        for session in ('ja', 'en'):
+        for session in (('ja', 'en') if cur is not None else ()):
             set_global_language_to(session)
             try:
                 r_s = serialise(g.apply_binary_rules(to_cat(mx), to_cat(my)))
